@@ -193,3 +193,86 @@ def find_base_ref(max_count: int, num_reserved: int, maxval: int):
         else:
             hi = mid
     return (lo + hi) / 2
+
+
+def markov_counter_distribution(base, nr, maxval, n_adds):
+    """Exact distribution of a log counter after n unit adds starting from 0."""
+    probs = [1.0 if c < nr else base ** (-float(c - nr)) for c in range(maxval)] + [0.0]
+    dist = [0.0] * (maxval + 1)
+    dist[0] = 1.0
+    hi = 0
+    for _ in range(n_adds):
+        new = [0.0] * (maxval + 1)
+        for c in range(hi + 1):
+            m = dist[c]
+            if m == 0.0:
+                continue
+            p = probs[c]
+            new[c] += m * (1.0 - p)
+            if c < maxval:
+                new[c + 1] += m * p
+        hi = min(hi + 1, maxval)
+        dist = new
+    return dist
+
+
+def _gammaincc(a, x):
+    """regularised upper incomplete gamma Q(a, x) (Numerical Recipes gser/gcf)"""
+    if x <= 0:
+        return 1.0
+    gln = math.lgamma(a)
+    if x < a + 1.0:
+        ap, s, d = a, 1.0 / a, 1.0 / a
+        for _ in range(10000):
+            ap += 1.0
+            d *= x / ap
+            s += d
+            if abs(d) < abs(s) * 1e-16:
+                break
+        return max(0.0, 1.0 - s * math.exp(-x + a * math.log(x) - gln))
+    tiny = 1e-300
+    b = x + 1.0 - a
+    c = 1.0 / tiny
+    d = 1.0 / b
+    h = d
+    for i in range(1, 10000):
+        an = -i * (i - a)
+        b += 2.0
+        d = an * d + b
+        if abs(d) < tiny:
+            d = tiny
+        c = b + an / c
+        if abs(c) < tiny:
+            c = tiny
+        d = 1.0 / d
+        de = d * c
+        h *= de
+        if abs(de - 1.0) < 1e-16:
+            break
+    return math.exp(-x + a * math.log(x) - gln) * h
+
+
+def chi2_sf(x, df):
+    return _gammaincc(df / 2.0, x / 2.0)
+
+
+def chi_square_vs_exact(hist, exact, min_expected=8.0):
+    """Pearson chi-square of an observed histogram {value: count} against exact
+    probabilities; bins with small expectation are pooled. Returns (stat, df, p)."""
+    n = sum(hist.values())
+    bins = []
+    acc_e, acc_o = 0.0, 0
+    for c, pc in enumerate(exact):
+        acc_e += pc * n
+        acc_o += hist.get(c, 0)
+        if acc_e >= min_expected:
+            bins.append((acc_o, acc_e))
+            acc_e, acc_o = 0.0, 0
+    if bins and (acc_e > 0 or acc_o > 0):
+        o, e = bins[-1]
+        bins[-1] = (o + acc_o, e + acc_e)
+    if len(bins) < 2:
+        return 0.0, 0, 1.0
+    stat = sum((o - e) ** 2 / e for o, e in bins)
+    df = len(bins) - 1
+    return stat, df, chi2_sf(stat, df)
